@@ -1,5 +1,517 @@
-/- Helper lemmas for the mpq model (C12 / C11). -/
+/- Helper lemmas for the mpq model (C12 / C11 mpq part). -/
 import Mpir.Model.Mpq
 import MpirProofs.Lemmas.Base
+import Mathlib.Data.Int.GCD
+import Mathlib.RingTheory.Coprime.Lemmas
+import Mathlib.Data.Rat.Defs
+import Mathlib.Algebra.Order.Field.Rat
+import Mathlib.Tactic.FieldSimp
+import Mathlib.Tactic.Ring
+import Mathlib.Tactic.Linarith
+import Mathlib.Tactic.LinearCombination
+import Mathlib.Tactic.Positivity
 namespace Mpir.Mpq
+
+/-- the rational number an mpq variable stands for -/
+def Q.toRat (q : Q) : ℚ := (q.num : ℚ) / (q.den : ℚ)
+
+/-- canonical form: positive denominator, numerator and denominator coprime (so zero is 0/1) -/
+def Canonical (q : Q) : Prop := 0 < q.den ∧ Int.gcd q.num q.den = 1
+
+instance : DecidablePred Canonical := fun q => by unfold Canonical; infer_instance
+
+/-- store of a whole variable -/
+def upd (h : Heap) (i : Nat) (q : Q) : Heap := fun j => if j = i then q else h j
+
+@[simp] theorem upd_self (h : Heap) (i : Nat) (q : Q) : upd h i q i = q := by simp [upd]
+@[simp] theorem upd_upd (h : Heap) (i : Nat) (p q : Q) : upd (upd h i p) i q = upd h i q := by
+  funext j; unfold upd; split <;> rfl
+theorem upd_other (h : Heap) (i j : Nat) (q : Q) (hj : j ≠ i) : upd h i q j = h j := by simp [upd, hj]
+
+@[simp] theorem setNum_den (h : Heap) (i j : Nat) (v : Int) : (setNum h i v j).den = (h j).den := by
+  unfold setNum; split <;> rfl
+@[simp] theorem setDen_num (h : Heap) (i j : Nat) (v : Int) : (setDen h i v j).num = (h j).num := by
+  unfold setDen; split <;> rfl
+@[simp] theorem setNum_num_self (h : Heap) (i : Nat) (v : Int) : (setNum h i v i).num = v := by
+  simp [setNum]
+@[simp] theorem setDen_den_self (h : Heap) (i : Nat) (v : Int) : (setDen h i v i).den = v := by
+  simp [setDen]
+theorem setNum_num (h : Heap) (i j : Nat) (v : Int) :
+    (setNum h i v j).num = if j = i then v else (h j).num := by
+  unfold setNum; split <;> rfl
+theorem setDen_den (h : Heap) (i j : Nat) (v : Int) :
+    (setDen h i v j).den = if j = i then v else (h j).den := by
+  unfold setDen; split <;> rfl
+
+theorem setDen_setNum (h : Heap) (i : Nat) (x y : Int) : setDen (setNum h i x) i y = upd h i ⟨x, y⟩ := by
+  funext j; unfold setDen setNum upd; split <;> simp_all
+theorem setNum_setDen (h : Heap) (i : Nat) (x y : Int) : setNum (setDen h i y) i x = upd h i ⟨x, y⟩ := by
+  funext j; unfold setDen setNum upd; split <;> simp_all
+theorem setNum_upd (h : Heap) (i : Nat) (q : Q) (x : Int) : setNum (upd h i q) i x = upd h i ⟨x, q.den⟩ := by
+  funext j; unfold setNum upd; split <;> simp_all
+theorem setDen_upd (h : Heap) (i : Nat) (q : Q) (y : Int) : setDen (upd h i q) i y = upd h i ⟨q.num, y⟩ := by
+  funext j; unfold setDen upd; split <;> simp_all
+
+
+/-! ### integer gcd / coprimality toolbox -/
+
+theorem canonical_iff (q : Q) : Canonical q ↔ 0 < q.den ∧ IsCoprime q.num q.den := by
+  unfold Canonical; rw [Int.isCoprime_iff_gcd_eq_one]
+
+theorem zgcd_nonneg (a b : ℤ) : 0 ≤ zgcd a b := by unfold zgcd; positivity
+
+theorem zgcd_pos_of_right {a b : ℤ} (hb : b ≠ 0) : 0 < zgcd a b := by
+  unfold zgcd; exact_mod_cast Int.gcd_pos_of_ne_zero_right a hb
+
+theorem zgcd_pos_of_left {a b : ℤ} (ha : a ≠ 0) : 0 < zgcd a b := by
+  unfold zgcd; exact_mod_cast Int.gcd_pos_of_ne_zero_left b ha
+
+/-- decomposition along a positive gcd: the two cofactors are coprime and are what `divexact` returns -/
+theorem zgcd_decomp {a b : ℤ} (h : 0 < zgcd a b) :
+    ∃ x y, a = x * zgcd a b ∧ b = y * zgcd a b ∧ IsCoprime x y ∧
+      divexact a (zgcd a b) = x ∧ divexact b (zgcd a b) = y := by
+  unfold zgcd divexact at *
+  have hp : 0 < Int.gcd a b := by exact_mod_cast h
+  refine ⟨a / (Int.gcd a b : ℤ), b / (Int.gcd a b : ℤ), ?_, ?_, ?_, rfl, rfl⟩
+  · exact (Int.ediv_mul_cancel (Int.gcd_dvd_left a b)).symm
+  · exact (Int.ediv_mul_cancel (Int.gcd_dvd_right a b)).symm
+  · exact Int.isCoprime_iff_gcd_eq_one.mpr (Int.gcd_div_gcd_div_gcd hp)
+
+theorem divexact_mul_cancel {x g : ℤ} (hg : g ≠ 0) : divexact (x * g) g = x := by
+  unfold divexact; exact Int.mul_ediv_cancel x hg
+
+theorem isCoprime_of_odd {r : ℤ} (h : r % 2 = 1) : IsCoprime (2 : ℤ) r :=
+  ⟨-(r / 2), 1, by omega⟩
+
+/-- Henrici / Knuth 4.5.1 addition with the two gcds of mpq/aors.c -/
+theorem henrici {n1 d1 n2 d2 : ℤ} (hd1 : 0 < d1) (hd2 : 0 < d2)
+    (c1 : IsCoprime n1 d1) (c2 : IsCoprime n2 d2) :
+    0 < divexact d2 (zgcd (n1 * divexact d2 (zgcd d1 d2) + n2 * divexact d1 (zgcd d1 d2)) (zgcd d1 d2))
+          * divexact d1 (zgcd d1 d2) ∧
+    IsCoprime
+      (divexact (n1 * divexact d2 (zgcd d1 d2) + n2 * divexact d1 (zgcd d1 d2))
+        (zgcd (n1 * divexact d2 (zgcd d1 d2) + n2 * divexact d1 (zgcd d1 d2)) (zgcd d1 d2)))
+      (divexact d2 (zgcd (n1 * divexact d2 (zgcd d1 d2) + n2 * divexact d1 (zgcd d1 d2)) (zgcd d1 d2))
+          * divexact d1 (zgcd d1 d2)) ∧
+    divexact (n1 * divexact d2 (zgcd d1 d2) + n2 * divexact d1 (zgcd d1 d2))
+        (zgcd (n1 * divexact d2 (zgcd d1 d2) + n2 * divexact d1 (zgcd d1 d2)) (zgcd d1 d2)) * (d1 * d2)
+      = (n1 * d2 + n2 * d1) *
+        (divexact d2 (zgcd (n1 * divexact d2 (zgcd d1 d2) + n2 * divexact d1 (zgcd d1 d2)) (zgcd d1 d2))
+          * divexact d1 (zgcd d1 d2)) := by
+  have hg : 0 < zgcd d1 d2 := zgcd_pos_of_right hd2.ne'
+  obtain ⟨a1, a2, e1, e2, ca, q1, q2⟩ := zgcd_decomp hg
+  rw [q1, q2]
+  generalize zgcd d1 d2 = g at *
+  have ha1 : 0 < a1 := by
+    rcases lt_trichotomy a1 0 with h | h | h
+    · nlinarith
+    · subst h; simp at e1; omega
+    · exact h
+  have ha2 : 0 < a2 := by
+    rcases lt_trichotomy a2 0 with h | h | h
+    · nlinarith
+    · subst h; simp at e2; omega
+    · exact h
+  have cn1 : IsCoprime n1 a1 := by rw [e1] at c1; exact c1.of_mul_right_left
+  have cn2 : IsCoprime n2 a2 := by rw [e2] at c2; exact c2.of_mul_right_left
+  have ct1 : IsCoprime (n1 * a2 + n2 * a1) a1 :=
+    IsCoprime.add_mul_right_left (IsCoprime.mul_left cn1 ca.symm) n2
+  have ct2 : IsCoprime (n1 * a2 + n2 * a1) a2 := by
+    rw [add_comm]; exact IsCoprime.add_mul_right_left (IsCoprime.mul_left cn2 ca) n1
+  have hv : (n1 * a2 + n2 * a1) * g = n1 * d2 + n2 * d1 := by rw [e1, e2]; ring
+  have hg' : 0 < zgcd (n1 * a2 + n2 * a1) g := zgcd_pos_of_right hg.ne'
+  obtain ⟨t', g'', et, eg, ct, qt, _⟩ := zgcd_decomp hg'
+  rw [qt]
+  generalize n1 * a2 + n2 * a1 = t at *
+  generalize zgcd t g = g' at *
+  have hg'' : 0 < g'' := by
+    rcases lt_trichotomy g'' 0 with h | h | h
+    · nlinarith
+    · subst h; simp at eg; omega
+    · exact h
+  have hd2' : divexact d2 g' = a2 * g'' := by
+    rw [e2, eg, show a2 * (g'' * g') = (a2 * g'') * g' by ring]
+    exact divexact_mul_cancel hg'.ne'
+  rw [hd2']
+  refine ⟨by positivity, ?_, ?_⟩
+  · have dt : t' ∣ t := ⟨g', et⟩
+    exact IsCoprime.mul_right (IsCoprime.mul_right (ct2.of_isCoprime_of_dvd_left dt) ct)
+      (ct1.of_isCoprime_of_dvd_left dt)
+  · rw [← hv, et, e1, e2, eg]; ring
+
+/-! ### value of a canonical pair -/
+
+theorem toRat_eq_iff {a b : Q} (ha : a.den ≠ 0) (hb : b.den ≠ 0) :
+    a.toRat = b.toRat ↔ a.num * b.den = b.num * a.den := by
+  unfold Q.toRat
+  have ha' : (a.den : ℚ) ≠ 0 := by exact_mod_cast ha
+  have hb' : (b.den : ℚ) ≠ 0 := by exact_mod_cast hb
+  rw [div_eq_div_iff ha' hb']
+  exact_mod_cast Iff.rfl
+
+/-! ### mpq_aors -/
+
+/-- closed form of `aors` on the values of the two operands (same branches as aors.c) -/
+def aorsVal (sub : Bool) (a b : Q) : Q :=
+  let f : Int → Int → Int := fun x y => if sub then x - y else x + y
+  let gcd := zgcd a.den b.den
+  if gcd ≠ 1 then
+    let t := f (a.num * divexact b.den gcd) (b.num * divexact a.den gcd)
+    let tmp2 := divexact a.den gcd
+    let gcd' := zgcd t gcd
+    if gcd' = 1 then ⟨t, b.den * tmp2⟩ else ⟨divexact t gcd', divexact b.den gcd' * tmp2⟩
+  else ⟨f (a.num * b.den) (b.num * a.den), a.den * b.den⟩
+
+/-- for EVERY choice of ids (every alias pattern) `aors` stores `aorsVal` of the operands' original
+    values into `rop` and touches nothing else -/
+theorem aors_eq (sub : Bool) (rop op1 op2 : Nat) (h : Heap) :
+    aors sub rop op1 op2 h = upd h rop (aorsVal sub (h op1) (h op2)) := by
+  unfold aors aorsVal
+  simp only [setNum_den, setDen_setNum]
+  split_ifs <;> rfl
+
+theorem zgcd_one_right (a : ℤ) : zgcd a 1 = 1 := by unfold zgcd; simp
+
+theorem divexact_one (a : ℤ) : divexact a 1 = a := by unfold divexact; simp
+
+theorem toRat_of_cross {r : Q} {S D : ℤ} (hD : D ≠ 0) (hr : r.den ≠ 0) (h : r.num * D = S * r.den) :
+    r.toRat = (S : ℚ) / D := by
+  unfold Q.toRat
+  have x1 : (D : ℚ) ≠ 0 := by exact_mod_cast hD
+  have x2 : (r.den : ℚ) ≠ 0 := by exact_mod_cast hr
+  rw [div_eq_div_iff x2 x1]
+  exact_mod_cast h
+
+theorem aorsVal_add_spec {a b : Q} (ha : Canonical a) (hb : Canonical b) :
+    (aorsVal false a b).toRat = a.toRat + b.toRat ∧ Canonical (aorsVal false a b) := by
+  rw [canonical_iff] at ha hb ⊢
+  obtain ⟨hd1, c1⟩ := ha; obtain ⟨hd2, c2⟩ := hb
+  obtain ⟨hD, hC, hV⟩ := henrici hd1 hd2 c1 c2
+  have key : ∀ r : Q, 0 < r.den → IsCoprime r.num r.den →
+      r.num * (a.den * b.den) = (a.num * b.den + b.num * a.den) * r.den →
+      r.toRat = a.toRat + b.toRat ∧ 0 < r.den ∧ IsCoprime r.num r.den := by
+    intro r h1 h2 h3
+    refine ⟨?_, h1, h2⟩
+    rw [toRat_of_cross (mul_pos hd1 hd2).ne' h1.ne' h3]
+    unfold Q.toRat
+    have x1 : (a.den : ℚ) ≠ 0 := by exact_mod_cast hd1.ne'
+    have x2 : (b.den : ℚ) ≠ 0 := by exact_mod_cast hd2.ne'
+    push_cast
+    field_simp
+  unfold aorsVal
+  simp only [Bool.false_eq_true, if_false]
+  split_ifs with h1 h2
+  · apply key
+    · simpa [h2, divexact_one] using hD
+    · simpa [h2, divexact_one] using hC
+    · simpa [h2, divexact_one] using hV
+  · exact key _ hD hC hV
+  · have h1 := not_not.mp h1
+    apply key
+    · simpa [h1, divexact_one, zgcd_one_right, mul_comm] using hD
+    · simpa [h1, divexact_one, zgcd_one_right, mul_comm] using hC
+    · simp
+
+theorem aorsVal_sub_eq (a b : Q) : aorsVal true a b = aorsVal false a ⟨-b.num, b.den⟩ := by
+  unfold aorsVal
+  simp only [Bool.false_eq_true, if_false, if_true, neg_mul, sub_eq_add_neg]
+
+theorem aorsVal_sub_spec {a b : Q} (ha : Canonical a) (hb : Canonical b) :
+    (aorsVal true a b).toRat = a.toRat - b.toRat ∧ Canonical (aorsVal true a b) := by
+  have hb' : Canonical ⟨-b.num, b.den⟩ := by
+    rw [canonical_iff] at hb ⊢; exact ⟨hb.1, hb.2.neg_left⟩
+  have := aorsVal_add_spec ha hb'
+  rw [aorsVal_sub_eq]
+  refine ⟨?_, this.2⟩
+  rw [this.1]; unfold Q.toRat; push_cast; ring
+
+/-! ### mpq_mul -/
+
+def mulVal (same : Bool) (a b : Q) : Q :=
+  if same then ⟨a.num * a.num, a.den * a.den⟩
+  else
+    let gcd1 := zgcd a.num b.den
+    let gcd2 := zgcd b.num a.den
+    ⟨divexact a.num gcd1 * divexact b.num gcd2, divexact b.den gcd1 * divexact a.den gcd2⟩
+
+theorem mul_eq (prod op1 op2 : Nat) (h : Heap) :
+    mul prod op1 op2 h = upd h prod (mulVal (op1 = op2) (h op1) (h op2)) := by
+  unfold mul mulVal
+  simp only [setNum_den, setDen_setNum]
+  split_ifs <;> simp_all
+
+theorem pos_of_mul_pos_right' {x g : ℤ} (h : 0 < x * g) (hg : 0 < g) : 0 < x := by
+  rcases lt_trichotomy x 0 with hx | hx | hx
+  · nlinarith
+  · subst hx; simp at h
+  · exact hx
+
+/-- cross-cancellation of mpq/mul.c: the general path (any two canonical values, also equal ones) -/
+theorem mulVal_general_spec {a b : Q} (ha : Canonical a) (hb : Canonical b) :
+    (mulVal false a b).toRat = a.toRat * b.toRat ∧ Canonical (mulVal false a b) := by
+  rw [canonical_iff] at ha hb ⊢
+  obtain ⟨hd1, c1⟩ := ha; obtain ⟨hd2, c2⟩ := hb
+  unfold mulVal
+  simp only [Bool.false_eq_true, if_false]
+  have hg1 : 0 < zgcd a.num b.den := zgcd_pos_of_right hd2.ne'
+  have hg2 : 0 < zgcd b.num a.den := zgcd_pos_of_right hd1.ne'
+  obtain ⟨x, y, ex, ey, cxy, qx, qy⟩ := zgcd_decomp hg1
+  obtain ⟨u, w, eu, ew, cuw, qu, qw⟩ := zgcd_decomp hg2
+  rw [qx, qy, qu, qw]
+  generalize zgcd a.num b.den = g1 at *
+  generalize zgcd b.num a.den = g2 at *
+  have hy : 0 < y := pos_of_mul_pos_right' (ey ▸ hd2) hg1
+  have hw : 0 < w := pos_of_mul_pos_right' (ew ▸ hd1) hg2
+  have cxw : IsCoprime x w :=
+    (c1.of_isCoprime_of_dvd_left ⟨g1, ex⟩).of_isCoprime_of_dvd_right ⟨g2, ew⟩
+  have cuy : IsCoprime u y :=
+    (c2.of_isCoprime_of_dvd_left ⟨g2, eu⟩).of_isCoprime_of_dvd_right ⟨g1, ey⟩
+  refine ⟨?_, by positivity, ?_⟩
+  · have : (⟨x * u, y * w⟩ : Q).toRat = ((a.num * b.num : ℤ) : ℚ) / ((a.den * b.den : ℤ) : ℚ) := by
+      apply toRat_of_cross (mul_pos hd1 hd2).ne' (mul_pos hy hw).ne'
+      show x * u * (a.den * b.den) = a.num * b.num * (y * w)
+      rw [ex, ey, eu, ew]; ring
+    rw [this]; unfold Q.toRat; push_cast
+    have x1 : (a.den : ℚ) ≠ 0 := by exact_mod_cast hd1.ne'
+    have x2 : (b.den : ℚ) ≠ 0 := by exact_mod_cast hd2.ne'
+    field_simp
+  · exact IsCoprime.mul_left (IsCoprime.mul_right cxy cxw) (IsCoprime.mul_right cuy cuw)
+
+/-- the squaring shortcut mul.c:33-39 -/
+theorem mulVal_same_spec {a : Q} (ha : Canonical a) :
+    (mulVal true a a).toRat = a.toRat * a.toRat ∧ Canonical (mulVal true a a) := by
+  rw [canonical_iff] at ha ⊢
+  obtain ⟨hd1, c1⟩ := ha
+  unfold mulVal; simp only [if_true]
+  refine ⟨?_, by positivity, IsCoprime.mul_left (IsCoprime.mul_right c1 c1) (IsCoprime.mul_right c1 c1)⟩
+  unfold Q.toRat; push_cast
+  have x1 : (a.den : ℚ) ≠ 0 := by exact_mod_cast hd1.ne'
+  field_simp
+
+/-! ### mpq_div -/
+
+def divVal (a b : Q) : Q :=
+  let gcd1 := zgcd a.num b.num
+  let gcd2 := zgcd b.den a.den
+  let numtmp := divexact a.num gcd1 * divexact b.den gcd2
+  let den := divexact b.num gcd1 * divexact a.den gcd2
+  if den < 0 then ⟨-numtmp, -den⟩ else ⟨numtmp, den⟩
+
+theorem div_eq (quot op1 op2 : Nat) (h : Heap) :
+    div quot op1 op2 h = if (h op2).num = 0 then none else some (upd h quot (divVal (h op1) (h op2))) := by
+  unfold div divVal
+  simp only [setNum_setDen, upd_self, setDen_upd, setNum_upd]
+  split_ifs <;> rfl
+
+theorem divVal_spec {a b : Q} (ha : Canonical a) (hb : Canonical b) (hb0 : b.num ≠ 0) :
+    (divVal a b).toRat = a.toRat / b.toRat ∧ Canonical (divVal a b) := by
+  rw [canonical_iff] at ha hb ⊢
+  obtain ⟨hd1, c1⟩ := ha; obtain ⟨hd2, c2⟩ := hb
+  have hg1 : 0 < zgcd a.num b.num := zgcd_pos_of_right hb0
+  have hg2 : 0 < zgcd b.den a.den := zgcd_pos_of_right hd1.ne'
+  obtain ⟨x, u, ex, eu, cxu, qx, qu⟩ := zgcd_decomp hg1
+  obtain ⟨y, w, ey, ew, cyw, qy, qw⟩ := zgcd_decomp hg2
+  unfold divVal
+  simp only []
+  rw [qx, qy, qu, qw]
+  generalize zgcd a.num b.num = g1 at *
+  generalize zgcd b.den a.den = g2 at *
+  have hy : 0 < y := pos_of_mul_pos_right' (ey ▸ hd2) hg2
+  have hw : 0 < w := pos_of_mul_pos_right' (ew ▸ hd1) hg2
+  have hu : u ≠ 0 := by rintro rfl; simp at eu; exact hb0 eu
+  have cxw : IsCoprime x w :=
+    (c1.of_isCoprime_of_dvd_left ⟨g1, ex⟩).of_isCoprime_of_dvd_right ⟨g2, ew⟩
+  have cuy : IsCoprime u y :=
+    (c2.of_isCoprime_of_dvd_left ⟨g1, eu⟩).of_isCoprime_of_dvd_right ⟨g2, ey⟩
+  have cop : IsCoprime (x * y) (u * w) :=
+    IsCoprime.mul_left (IsCoprime.mul_right cxu cxw) (IsCoprime.mul_right cuy.symm cyw)
+  have val : ∀ r : Q, r.den ≠ 0 → r.num * (a.den * b.num) = a.num * b.den * r.den →
+      r.toRat = a.toRat / b.toRat := by
+    intro r hr hc
+    have hD : a.den * b.num ≠ 0 := mul_ne_zero hd1.ne' hb0
+    rw [toRat_of_cross hD hr hc]; unfold Q.toRat; push_cast
+    have x1 : (a.den : ℚ) ≠ 0 := by exact_mod_cast hd1.ne'
+    have x2 : (b.den : ℚ) ≠ 0 := by exact_mod_cast hd2.ne'
+    have x3 : (b.num : ℚ) ≠ 0 := by exact_mod_cast hb0
+    field_simp
+  split_ifs with hneg
+  · refine ⟨?_, by simpa using hneg, cop.neg_neg⟩
+    apply val
+    · simpa using hneg.ne
+    · show -(x * y) * (a.den * b.num) = a.num * b.den * -(u * w)
+      rw [ex, ey, eu, ew]; ring
+  · have hpos : 0 < u * w := by
+      rcases lt_trichotomy (u * w) 0 with h | h | h
+      · exact absurd h hneg
+      · exact absurd h (mul_ne_zero hu hw.ne')
+      · exact h
+    refine ⟨?_, hpos, cop⟩
+    apply val
+    · exact hpos.ne'
+    · show x * y * (a.den * b.num) = a.num * b.den * (u * w)
+      rw [ex, ey, eu, ew]; ring
+
+/-! ### mpq_inv -/
+
+def invVal (a : Q) : Q := if a.num < 0 then ⟨-a.den, -a.num⟩ else ⟨a.den, a.num⟩
+
+theorem inv_eq (dest src : Nat) (h : Heap) :
+    inv dest src h = if (h src).num = 0 then none else some (upd h dest (invVal (h src))) := by
+  unfold inv invVal
+  by_cases h0 : (h src).num = 0
+  · simp [h0]
+  · rcases lt_or_gt_of_ne h0 with hn | hn
+    · have s1 : (h src).num.sign = -1 := Int.sign_eq_neg_one_of_neg hn
+      have e1 : |(h src).num| = -(h src).num := abs_of_neg hn
+      have e2 : (h src).den.sign * |(h src).den| = (h src).den := Int.sign_mul_abs _
+      by_cases hd : dest = src
+      · subst hd; simp [h0, hn, s1, e1, e2, setDen_setNum]
+      · have hd' : ¬ src = dest := fun e => hd e.symm
+        simp [h0, hn, s1, hd, hd', e1, e2, setDen_setNum, setNum_num]
+    · have s1 : (h src).num.sign = 1 := Int.sign_eq_one_of_pos hn
+      have e1 : |(h src).num| = (h src).num := abs_of_pos hn
+      have e2 : (h src).den.sign * |(h src).den| = (h src).den := Int.sign_mul_abs _
+      have hn' : ¬ (h src).num < 0 := by omega
+      by_cases hd : dest = src
+      · subst hd; simp [h0, hn', s1, e1, e2, setDen_setNum]
+      · have hd' : ¬ src = dest := fun e => hd e.symm
+        simp [h0, hn', s1, hd, hd', e1, e2, setDen_setNum, setNum_num]
+
+theorem invVal_spec {a : Q} (ha : Canonical a) (h0 : a.num ≠ 0) :
+    (invVal a).toRat = (a.toRat)⁻¹ ∧ Canonical (invVal a) := by
+  rw [canonical_iff] at ha ⊢
+  obtain ⟨hd, c⟩ := ha
+  unfold invVal
+  split_ifs with hn
+  · refine ⟨?_, by simpa using hn, c.symm.neg_neg⟩
+    unfold Q.toRat; push_cast; rw [inv_div, neg_div_neg_eq]
+  · have : 0 < a.num := by omega
+    refine ⟨?_, this, c.symm⟩
+    unfold Q.toRat; rw [inv_div]
+
+/-! ### mpq_neg, mpq_abs, mpq_set, setters, swap -/
+
+theorem neg_eq (dst src : Nat) (h : Heap) :
+    neg dst src h = upd h dst ⟨-(h src).num, (h src).den⟩ := by
+  unfold neg
+  by_cases hd : src = dst
+  · subst hd; funext j; simp only [setNum, upd, ne_eq, not_true_eq_false, if_false]
+    split <;> simp_all
+  · simp [hd, setNum_setDen]
+
+theorem abs_eq (dst src : Nat) (h : Heap) :
+    Mpq.abs dst src h = upd h dst ⟨|(h src).num|, (h src).den⟩ := by
+  unfold Mpq.abs
+  simp only [Int.natCast_natAbs]
+  by_cases hd : dst = src
+  · subst hd; funext j; simp only [setNum, upd, ne_eq, not_true_eq_false, if_false]
+    split <;> simp_all
+  · simp [hd, setNum_setDen]
+
+theorem set_eq (dest src : Nat) (h : Heap) : set dest src h = upd h dest (h src) := by
+  unfold set; simp [setDen_setNum]
+
+theorem set_z_eq (dest : Nat) (z : Int) (h : Heap) : set_z dest z h = upd h dest ⟨z, 1⟩ := by
+  unfold set_z; simp [setDen_setNum]
+
+theorem set_si_eq (dest : Nat) (n : Int) (d : Nat) (h : Heap) :
+    set_si dest n d h = upd h dest (if n = 0 then ⟨0, 1⟩ else ⟨n, d⟩) := by
+  unfold set_si; split_ifs <;> simp [setDen_setNum]
+
+theorem set_ui_eq (dest : Nat) (n d : Nat) (h : Heap) :
+    set_ui dest n d h = upd h dest (if n = 0 then ⟨0, 1⟩ else ⟨n, d⟩) := by
+  unfold set_ui; split_ifs <;> simp [setDen_setNum]
+
+theorem swap_eq (u v : Nat) (h : Heap) :
+    swap u v h = fun j => if j = u then h v else if j = v then h u else h j := by
+  unfold swap
+  funext j
+  rcases eq_or_ne u v with rfl | h3
+  · by_cases h1 : j = u <;> simp_all [setNum, setDen]
+  · have h3' : v ≠ u := h3.symm
+    by_cases h1 : j = u <;> by_cases h2 : j = v <;> simp_all [setNum, setDen]
+
+/-! ### mpq_canonicalize -/
+
+def canonVal (a : Q) : Q :=
+  let gcd := zgcd a.num a.den
+  let b : Q := if gcd ≠ 1 then ⟨divexact a.num gcd, divexact a.den gcd⟩ else a
+  if b.den < 0 then ⟨-b.num, -b.den⟩ else b
+
+theorem canonicalize_eq (op : Nat) (h : Heap) :
+    canonicalize op h = if (h op).den = 0 then none else some (upd h op (canonVal (h op))) := by
+  unfold canonicalize canonVal
+  have hid : upd h op (h op) = h := by funext j; unfold upd; split <;> simp_all
+  by_cases h0 : (h op).den = 0
+  · simp [h0]
+  · simp only [h0, if_false, setNum_den, setDen_setNum]
+    by_cases hg : zgcd (h op).num (h op).den = 1
+    · simp only [hg, ne_eq, not_true_eq_false, if_false]
+      split_ifs
+      · rfl
+      · rw [hid]
+    · simp only [hg, ne_eq, not_false_eq_true, if_true, upd_self, upd_upd]
+      split_ifs <;> rfl
+
+theorem canonVal_spec {a : Q} (h0 : a.den ≠ 0) :
+    (canonVal a).toRat = a.toRat ∧ Canonical (canonVal a) := by
+  have hg : 0 < zgcd a.num a.den := zgcd_pos_of_right h0
+  obtain ⟨x, y, ex, ey, cxy, qx, qy⟩ := zgcd_decomp hg
+  have hy : y ≠ 0 := by rintro rfl; simp at ey; exact h0 ey
+  -- after the gcd step the pair is (x, y) in both branches
+  have hb : (if zgcd a.num a.den ≠ 1 then (⟨divexact a.num (zgcd a.num a.den),
+      divexact a.den (zgcd a.num a.den)⟩ : Q) else a) = ⟨x, y⟩ := by
+    split_ifs with h1
+    · rw [qx, qy]
+    · have h1 := not_not.mp h1
+      rw [h1] at ex ey; cases a; simp_all
+  unfold canonVal
+  simp only [hb]
+  have val : ∀ r : Q, r.den ≠ 0 → r.num * a.den = a.num * r.den → r.toRat = a.toRat := by
+    intro r hr hc; rw [toRat_eq_iff hr h0]; exact hc
+  rw [canonical_iff]
+  clear hb qx qy
+  generalize zgcd a.num a.den = g at *
+  split_ifs with hneg
+  · refine ⟨val _ (by simpa using hy) ?_, by simpa using hneg, cxy.neg_neg⟩
+    show -x * a.den = a.num * -y
+    rw [ex, ey]; ring
+  · have : 0 < y := by
+      rcases lt_trichotomy y 0 with h | h | h
+      · exact absurd h hneg
+      · exact absurd h hy
+      · exact h
+    refine ⟨val _ hy ?_, this, cxy⟩
+    show x * a.den = a.num * y
+    rw [ex, ey]; ring
+
+/-! ### uniqueness of the canonical form (mpq_equal) -/
+
+theorem canonical_unique {a b : Q} (ha : Canonical a) (hb : Canonical b)
+    (h : a.num * b.den = b.num * a.den) : a = b := by
+  rw [canonical_iff] at ha hb
+  obtain ⟨hd1, c1⟩ := ha; obtain ⟨hd2, c2⟩ := hb
+  have d12 : a.den ∣ b.den := by
+    have : a.den ∣ a.num * b.den := ⟨b.num, by rw [h]; ring⟩
+    exact c1.symm.dvd_of_dvd_mul_left this
+  have d21 : b.den ∣ a.den := by
+    have : b.den ∣ b.num * a.den := ⟨a.num, by rw [← h]; ring⟩
+    exact c2.symm.dvd_of_dvd_mul_left this
+  have hden : a.den = b.den := Int.dvd_antisymm hd1.le hd2.le d12 d21
+  have hnum : a.num = b.num := by
+    rw [hden] at h; exact mul_right_cancel₀ hd2.ne' h
+  cases a; cases b; simp_all
+
+theorem equal_eq (op1 op2 : Nat) (h : Heap) :
+    equal op1 op2 h = if h op1 = h op2 then 1 else 0 := by
+  unfold equal
+  by_cases h1 : (h op1).num = (h op2).num <;> by_cases h2 : (h op1).den = (h op2).den
+  · have : h op1 = h op2 := by cases hx : h op1; cases hy : h op2; simp_all
+    simp [this]
+  · have : h op1 ≠ h op2 := fun e => h2 (by rw [e])
+    simp [h1, h2, this]
+  · have : h op1 ≠ h op2 := fun e => h1 (by rw [e])
+    simp [h1, this]
+  · have : h op1 ≠ h op2 := fun e => h1 (by rw [e])
+    simp [h1, this]
 end Mpir.Mpq
